@@ -17,6 +17,8 @@ def _verdict(case, impl):
 
 
 def _equal(case, impl, model):
+    if case.startswith("mfile "):
+        return impl == model    # restore mode's multi-file driver: exact outcome (abort | what was written where)
     v = _verdict(case, impl)
     if v != "accept":
         return False
@@ -30,6 +32,8 @@ def _equal(case, impl, model):
 
 
 def _signature(case, impl, model):
+    if case.startswith("mfile "):
+        return "mfile:" + impl.split(" ")[0]
     v = _verdict(case, impl)
     m = re.search(r" P=(\d+) ", case)
     if v.startswith("reject:value:") and case.startswith("chunk ") and m and int(m.group(1)) > 1:
@@ -38,6 +42,8 @@ def _signature(case, impl, model):
 
 
 def _nontrivial(case, impl):
+    if case.startswith("mfile "):
+        return "|" in case      # at least two input files
     # at least two connections carried data commands
     conns = set(re.findall(r"[ ,=](\d+):(?!select)[a-z]+:", impl))
     return len(conns) >= 2
@@ -68,7 +74,7 @@ PROPS["C07"] = {
             "batch; 1..5 databases in any order; same key name in several dbs) x mode sync|restore x Parallel 1..8 x target.db -1|0|3|7 x "
             "key_exists x filter.lua x db/key/slot filter lists x optional failing RESTORE x seeded per-connection reply delays; "
             "chunk (scaled build, chunk limit 64 bytes): one hash delivered as 2..4 chunk entries, Parallel 1..4, rewrite|none, DEL held "
-            "back 25 ms. non-trivial = at least two connections carried data commands; distinct by case text",
+            "back 25 ms. mfile: the real CmdRestore.Main (child process) over 1..4 input files, source.rdb.parallel 1..#files, an optional refused RESTORE in any file. non-trivial = at least two connections carried data commands; distinct by case text",
     "nontrivial": _nontrivial,
     "equal": _equal,
     "signature": _signature,
